@@ -1,7 +1,7 @@
 #!/bin/bash
 # own7/run.sh [names…] — runs the own variants (m*: property check must report) and benign edits (b*: all 20 checks silent)
 export GOFLAGS=-mod=mod GOPROXY=off GOSUMDB=off GOTOOLCHAIN=local; unset GOWORK
-W=$(cd $(dirname $0)/.. && pwd); export CTVERIF_BIN=$W/bin/ctverif VERIF=$W
+W=$(cd $(dirname $0)/.. && pwd); export CTVERIF_BIN=${CTVERIF_BIN:-$W/bin/ctverif} VERIF=$W
 names="$*"; [ -z "$names" ] && names=$(cd $W/own7 && ls *.diff | sed 's/.diff$//')
 for n in $names; do
   d=$W/own7/$n.diff
